@@ -53,9 +53,10 @@ def label(name, k, i):
     nm = name if name else str(k)
     return (nm[:(7 - len(str(i)))] + '_' + str(i))[:8]
 
-def gen_lp(rng, M, cv, distinct=True):
+def gen_lp(rng, M, cv, distinct=True, big=False):
     """returns (op, flat) where flat = dict(cols, rows, A, c) of the flattened LP"""
-    nv = rng.randint(1, 3)
+    # big: two-digit positions, component indices and row indices (the 8-character labels are cut differently for them)
+    nv = rng.choice([1, 2, 11]) if big else rng.randint(1, 3)
     pool = list(NAMES); rng.shuffle(pool)
     vnames, cnames = [], []
     def pick(used):
@@ -66,7 +67,7 @@ def gen_lp(rng, M, cv, distinct=True):
     vs = []
     for k in range(nv):
         nm = pick(vnames); vnames.append(nm)
-        vs.append(M.variable(rng.randint(1, 3), nm))
+        vs.append(M.variable(rng.choice([1, 2, 11, 12]) if big else rng.randint(1, 3), nm))
     def coefmat(m, n, allow_compact=True):
         """returns (matrix-like coefficient for a*v, dense list rows m x n)"""
         r = rng.random()
@@ -96,9 +97,9 @@ def gen_lp(rng, M, cv, distinct=True):
         for i in range(len(vs[0])): cflat[(0, i)] = 1.0
     if rng.random() < 0.5: obj = obj + float(rng.randint(-3, 3))
     cons, rows, Aflat = [], [], {}
-    for j in range(rng.randint(1, 4)):
+    for j in range(rng.choice([2, 3, 11, 12]) if big else rng.randint(1, 4)):
         nm = pick(cnames); cnames.append(nm)
-        m = rng.choice([1, 2, 3])
+        m = rng.choice([1, 2, 11, 12]) if big else rng.choice([1, 2, 3])
         f = None; used = []
         for k, v in enumerate(vs):
             if rng.random() < 0.7 or (f is None and k == len(vs) - 1):
@@ -266,7 +267,7 @@ def correspond(ctx):
     import cvxopt.modeling as M
     from cvxopt import solvers
     solvers.options['show_progress'] = False
-    solvers.options['glpk'] = {'msg_lev': 'GLP_MSG_OFF'}
+    solvers.options['glpk'] = {'msg_lev': 'GLP_MSG_OFF', 'tm_lim': 3000}      # GLPK's simplex can cycle on degenerate instances: bounded, status 'unknown' is tolerated below
     rng = random.Random(ctx.seed * 151 + 14)
     nA = 150 if ctx.quick() else 3000
     nB = 300 if ctx.quick() else 6000
@@ -278,7 +279,7 @@ def correspond(ctx):
     try:
         # ---------------- A and C
         for it in range(nA):
-            g = gen_lp(rng, M, cvxopt)
+            g = gen_lp(rng, M, cvxopt, big=(it % 6 == 5))
             if g is None: continue
             p, vs, cons, cflat, rows, Aflat = g
             fl, clabels, rlabels = flat_lines(p, vs, cons, cflat, rows, Aflat)
@@ -319,9 +320,9 @@ def correspond(ctx):
                     q.solve('dense', 'glpk'); s2 = q.status; v2 = None if s2 != 'optimal' else float((q.objective - q.objective._constant).value()[0])
                 if {s1, s2} <= {'primal infeasible', 'dual infeasible'}: pass
                 elif s1 != s2 and 'unknown' not in (s1, s2):
-                    ctx.violation('c14:roundtrip:status', 'status %r before, %r after tofile/fromfile' % (s1, s2), desc)
+                    ctx.violation('c14:roundtrip:label-collision' if collide else 'c14:roundtrip:status', 'status %r before, %r after tofile/fromfile' % (s1, s2), desc)
                 elif s1 == 'optimal' and abs(v1 - v2) > 1e-4 * (1 + abs(v1)):
-                    ctx.violation('c14:roundtrip:value', 'optimal value of the linear part %r before, %r after' % (v1, v2), desc)
+                    ctx.violation('c14:roundtrip:label-collision' if collide else 'c14:roundtrip:value', 'optimal value of the linear part %r before, %r after' % (v1, v2), desc)
                 bump('C:solved:' + s1)
             except (TypeError, ValueError, ArithmeticError, IndexError): bump('C:solve-skipped')
         # ---------------- B
